@@ -2669,7 +2669,7 @@ func (m *Msg) hasAlt() bool {
 //
 // This method checks whether the message contains mixed content, such as attachments along with
 // message parts (e.g., text or HTML). A message is considered to have mixed parts if there are both
-// attachments and message parts, or if there are multiple attachments.
+// attachments and message parts or embeds, or if there are multiple attachments.
 //
 // Returns:
 //   - A boolean value indicating whether the message has mixed parts.
@@ -2677,7 +2677,7 @@ func (m *Msg) hasAlt() bool {
 // References:
 //   - https://datatracker.ietf.org/doc/html/rfc2046#section-5.1.3
 func (m *Msg) hasMixed() bool {
-	return m.pgptype == 0 && ((len(m.parts) > 0 && len(m.attachments) > 0) || len(m.attachments) > 1)
+	return m.pgptype == 0 && (((len(m.parts) > 0 || len(m.embeds) > 0) && len(m.attachments) > 0) || len(m.attachments) > 1)
 }
 
 // hasSMIME determines if the Msg should be signed with S/MIME.
